@@ -23,7 +23,7 @@ enum InnerOut {
     Poll(GetFut, Option<GetResult>),
     Returned,
     Taken(Obj),
-    Status,
+    Status(deadpool::Status),
     Resized,
 }
 
@@ -167,10 +167,7 @@ impl<'a> Interp<'a> {
             Inner::Status => {
                 op_b = self.new_op(OpKind::Status);
                 let p2 = pool.clone();
-                Box::new(move || {
-                    let _ = p2.status();
-                    InnerOut::Status
-                })
+                Box::new(move || InnerOut::Status(p2.status()))
             }
             Inner::Resize { n } => {
                 op_b = self.new_op(OpKind::Resize);
@@ -233,7 +230,19 @@ impl<'a> Interp<'a> {
                 self.return_done(id, closed_before);
             }
             Ok(InnerOut::Taken(o)) => self.take_done(take_id.unwrap(), o),
-            Ok(InnerOut::Status) => {}
+            Ok(InnerOut::Status(st)) => {
+                // status() needs the lock, so it reports the state after the retain finished;
+                // nothing else has run since
+                if let Some(now) = self.pool.as_ref().map(|p| p.status()) {
+                    if (st.max_size, st.size, st.available, st.waiting) != (now.max_size, now.size, now.available, now.waiting) {
+                        self.flag(
+                            "status-under-contention",
+                            &["C11"],
+                            format!("status() called while retain() held the pool's lock returned {:?}, the pool's state is {:?}", st, now),
+                        );
+                    }
+                }
+            }
             Ok(InnerOut::Resized) => self.resize_done(resize_n.unwrap(), None),
         }
     }
